@@ -397,8 +397,8 @@ def kw(ctx):
     if ok2:
         last = c.orelse[0].orelse
         ctx.check(any(isinstance(s, ast.Raise) and call_name(s.exc) == "TypeError" for s in last), c, "otherwise TypeError (unexpected keyword)", "an unexpected keyword is swallowed instead of raising TypeError")
-        st = [a for a in c.orelse[0].body if isinstance(a, ast.Assign)]
-        ctx.check(bool(st) and unparse(st[0]) == "varkwargs[%s] = %s" % (name_var, dotted(lp.target.elts[1])), st[0] if st else c, "surplus keyword is stored under its own name")
+        st = [a for a in c.orelse[0].body if isinstance(a, ast.Assign) and unparse(a) == "varkwargs[%s] = %s" % (name_var, dotted(lp.target.elts[1]))]
+        ctx.check(bool(st), st[0] if st else c, "surplus keyword is stored under its own name")
     stores = [a for a in nodes_of_type(f, ast.Assign) if any(isinstance(t, ast.Subscript) and dotted(t.value) == "arg_dict" and const_value(t.slice) == "**" for t in a.targets)]
     ctx.check(bool(stores) and dotted(stores[0].value) == "varkwargs", stores[0] if stores else f, "arg_dict['**'] is the surplus-keyword mapping")
 
